@@ -52,6 +52,21 @@ Definition nmode_eqb (a b : nmode) : bool :=
 Inductive route := RCtor | RCli.
 Inductive api := AParse | AParser.
 
+(* the Enum classes a case declares with a mixed-in data type.  A class is named by its member list (as in Leaf.v's TEnum).
+   IntEnum / (str, Enum) members ARE ints / strs: some are falsy, and a str-mixin member passes argparse's isinstance(default, str) *)
+Record enum_env := mkenv {
+  e_str : list (list string);            (* member lists of the (str, Enum) classes *)
+  e_falsy : list (list string * string)  (* (class, member whose value is falsy: 0, '') *)
+}.
+Definition strs_same (a b : list string) : bool :=
+  (fix eq l1 l2 := match l1, l2 with [], [] => true | x :: r1, y :: r2 => String.eqb x y && eq r1 r2 | _, _ => false end) a b.
+Definition is_str_enum (E : enum_env) (ms : list string) : bool := existsb (strs_same ms) (e_str E).
+Definition is_falsy_member (E : enum_env) (ms : list string) (m : string) : bool :=
+  existsb (fun p => strs_same ms (fst p) && String.eqb m (snd p)) (e_falsy E).
+(* the field's annotation is a (str, Enum) class or Optional of one *)
+Definition is_str_member (E : enum_env) (t : ty) : bool :=
+  match t with TEnum ms | TOpt (TEnum ms) => is_str_enum E ms | _ => false end.
+
 Record wiring := mkwiring {
   w_pp : list (pp_test * pp_rule);      (* postprocess chain *)
   w_dchain : list dsrc;                 (* FieldWrapper.default chain *)
@@ -152,6 +167,7 @@ Section WithFacts.
   Variable exts : list (string * codec).                (* Gen: serializable.extensions *)
   Variable enum_default_as_name : bool.                 (* Gen: get_arg_options turns an Enum default into its name *)
   Variable W : wiring.                                  (* Gen: the tables above *)
+  Variable E : enum_env.                                (* per case: the mixed-in Enum classes it declares *)
 
   (* encode(value): dispatch on the class of the value *)
   Fixpoint encode_cfg (v : value) : prim :=
@@ -193,15 +209,30 @@ Section WithFacts.
 
   (* get_arg_options, `elif self.is_enum:` arm: the default of a (non-Optional) Enum field is given to argparse by name *)
   Definition as_argparse_default (t : ty) (d : value) : value :=
-    if enum_default_as_name then match t, d with TEnum _, VEnum m => VStr m | _, _ => d end else d.
+    if enum_default_as_name
+    then match t, d with
+         | TEnum ms, VEnum m => if is_falsy_member E ms m then d else VStr m      (* `if self.default:` *)
+         | _, _ => d
+         end
+    else d.
 
   (* argparse, option absent: a default that is a str goes through the action's type=; anything else is used as it is *)
-  Definition argparse_default (a : action) (d : value) : res value :=
+  Definition argparse_default (t : ty) (a : action) (d : value) : res value :=
     match d with
     | VStr s => match a with
                 | AStore _ k _ => convert str2bool enum_miss_cls k 0 s
                 | ABoolFlag => match str2bool s with Some b => Ok (VBool b) | None => Err (Exit 2) end
                 end
+    | VEnum m =>
+        (* a member of a (str, Enum) class IS a str: it is passed through type= like any str default.  type=str (plain Enum field)
+           gives str(member) = "Class.NAME", never a member name; the by-name converter of an Optional[Enum] field looks the member's
+           VALUE up among the names and fails (values are assumed not to coincide with names) *)
+        if is_str_member E t
+        then match t with
+             | TEnum _ => Ok (VStr ("." ++ m))
+             | _ => Err (conv_err enum_miss_cls)
+             end
+        else Ok d
     | _ => Ok d
     end.
 
@@ -247,7 +278,7 @@ Section WithFacts.
 
   (* from the action's default to the constructor argument (the option does not occur on the command line) *)
   Definition finish_default (t : ty) (d : value) : res value :=
-    bind (argparse_default (arg_options t) (as_argparse_default t d)) (post_value t).
+    bind (argparse_default t (arg_options t) (as_argparse_default t d)) (post_value t).
 
   (* the constructor argument of a field of type t with definition default defn when the file holds p for it *)
   Definition value_via_config (t : ty) (defn : option value) (p : prim) : res value :=
